@@ -42,6 +42,8 @@ pub struct Case {
     pub ops: Vec<Op>,
     /// offsets between CR and LF may be chosen (fault kind)
     pub inside_crlf: bool,
+    /// the text starts this many bytes into a buffer (unaligned slice start)
+    pub align: u8,
 }
 
 macro_rules! counters {
@@ -65,6 +67,7 @@ counters!(
     fault_lookahead_between_locates,
     fault_far_lookahead_across_lines,
     fault_offset_inside_crlf,
+    fault_unaligned_text_address,
     probe_same_offset_twice,
     probe_same_line,
     probe_next_line,
@@ -95,7 +98,7 @@ const PYLINES: &[&str] = &[
 
 pub fn gen_text(r: &mut Rng, scale: u32) -> String {
     if r.chance(1, 4000) {
-        return crate::bigtext::gen_big_text(r);
+        return crate::bigtext::gen_big_text_scaled(r, scale > 1);
     }
     let style = r.below(100);
     let mut text = String::new();
@@ -172,7 +175,8 @@ pub fn generate(seed: u64, config: u64, scale: u32) -> Case {
         ops.truncate(8); // multi-megabyte texts: a short history is enough and keeps the run cheap
     }
     let inside_crlf = faults && r.chance(1, 3);
-    Case { text, ops, inside_crlf }
+    let align = if r.chance(1, 2) { r.below(8) as u8 } else { 0 };
+    Case { text, ops, inside_crlf, align }
 }
 
 /// Offsets a node or an error can have: character boundaries, but not the position in front
@@ -240,9 +244,18 @@ fn loc_tuple(l: SourceLocation) -> (u32, u32) {
 }
 
 pub fn execute(case: &Case, stats: &mut Stats) -> Outcome {
-    let text: &str = &case.text;
+    let mut buf = String::with_capacity(case.text.len() + 8);
+    for _ in 0..case.align {
+        buf.push('#');
+    }
+    buf.push_str(&case.text);
+    let text: &str = &buf[case.align as usize..];
+    if case.align > 0 {
+        stats.bump(C::fault_unaligned_text_address as usize);
+    }
     let mut dg = Digest::default();
     dg.str(text);
+    dg.byte(case.align);
     let legal = legal_offsets(text, case.inside_crlf);
     let table = model::RowTable::new(text);
     let rows = &table.rows;
@@ -559,6 +572,9 @@ pub fn shrink(case: &Case) -> Vec<Case> {
     if case.inside_crlf {
         out.push(Case { inside_crlf: false, ..case.clone() });
     }
+    if case.align > 0 {
+        out.push(Case { align: 0, ..case.clone() });
+    }
     for (i, op) in case.ops.iter().enumerate() {
         for (a, b) in [(0, 0), (op.a % 8, op.b % 16), (op.a % 8, op.b), (op.a, 0)] {
             if (a, b) != (op.a, op.b) && a <= op.a && b <= op.b {
@@ -591,12 +607,14 @@ pub fn case_size(case: &Case) -> usize {
         + args
         + case.text.chars().filter(|c| !matches!(c, 'a' | '\n')).count() * 10
         + case.inside_crlf as usize * 500
+        + case.align as usize * 20
 }
 
 pub fn case_to_json(case: &Case) -> J {
     obj(vec![
         ("text", case.text.as_str().into()),
         ("offsets_inside_crlf_allowed", case.inside_crlf.into()),
+        ("text_starts_at_buffer_offset", (case.align as u32).into()),
         (
             "ops",
             J::Arr(case.ops.iter().map(|o| J::Arr(vec![o.k.name().into(), o.a.into(), o.b.into()])).collect()),
@@ -614,7 +632,8 @@ pub fn case_from_json(j: &J) -> Result<Case, String> {
         ops.push(Op { k, a: g(1), b: g(2) });
     }
     let inside_crlf = j.get("offsets_inside_crlf_allowed").and_then(J::as_bool).unwrap_or(false);
-    Ok(Case { text, ops, inside_crlf })
+    let align = j.get("text_starts_at_buffer_offset").and_then(J::as_u64).unwrap_or(0) as u8;
+    Ok(Case { text, ops, inside_crlf, align })
 }
 
 pub struct CursorLayer;
